@@ -146,5 +146,12 @@ NeverStuck == trusted.content.rt <= Cardinality(trusted.content.rk)
 PersistNeutral == [][(disk' # disk => (trusted' = trusted /\ disk' = trusted))]_vars
 (* a rejected offer leaves the root untouched; an accepted one installs exactly the offered content *)
 OfferEffect == [][trusted' # trusted => (trusted' = disk \/ trusted'.via.from = trusted.content)]_vars
+(* availability: a client that was never taken over is never stranded - it is at the honest head, or some published *)
+(* honest envelope is the next link it will accept                                                                   *)
+(* (with compromised keys an adversary can complete a CARELESS honest envelope - one whose new rule the honest signers *)
+(* did not meet - and move the client onto it: found by TLC; that root is still content the then-current root keys  *)
+(* signed, so NoTakeover holds, but availability is only claimed while no key is compromised)                       *)
+NotStranded == (~hadThreshold /\ adv = {}) =>
+                 (trusted.content = head \/ \E p \in published : p.content.ver = trusted.content.ver + 1 /\ Accepts(trusted.content, p))
 HistBound == Len(hist) <= 64
 =============================================================================
